@@ -10,13 +10,22 @@ generate_pafs / the DataPipe (shape, finiteness, additivity over animals, and fo
 animal alone: collinear with the unit vector source->destination, weight in [0,1],
 weight 1 on the segment, weight non-increasing in the exact distance to the closed
 segment, exact zero for missing endpoint / zero length / animals outside the image).
-Known findings: F1 (edges shorter than one pixel) and F23 (animals inside the image
-dropped by the strict filter box).
+Findings F1 (edges shorter than one pixel) and F23 (animals inside the image dropped by
+the strict filter box) are fixed in /repo (5bfaeb9, f00ee7f); the model's `false` variants
+and the Coq selectors are still tied on every run: the pre-repair source is rebuilt by
+reverse-applying proposed_fixes/C05_F1.diff, C05_F23.diff to the current edge_maps.py and
+the corpus witnesses plus a sample of cases are evaluated with fixed_len = fixed_box = false
+against it; `selector_F1` / `selector_strict_box` are evaluated in Coq (case CSel) and
+compared with the Python selectors of the oracle.  Kind "chk": the domain of generate_pafs
+(`in_domain`; model None <=> the code raises IndexError / RuntimeError).
 """
 from __future__ import annotations
 
+import importlib.util
 import json
 import math
+import shutil
+import subprocess
 from fractions import Fraction as F
 
 from .. import core
@@ -30,6 +39,7 @@ SEL_F1 = "short_edge_lt_1px"
 SEL_BOX = "dropped_by_strict_box"
 WITNESS_F1 = core.CORPUS / "C05" / "F1_short_edge.json"
 WITNESS_BOX = core.CORPUS / "C05" / "F23_border_animal.json"
+HIST_DIFFS = [core.VERIF / "proposed_fixes" / "C05_F1.diff", core.VERIF / "proposed_fixes" / "C05_F23.diff"]
 SIGMAS = [F(1, 2), F(1), F(3, 2), F(5, 2), F(5)]
 SIGMAS_EXTREME = [F(1, 16), F(1, 8), F(40), F(4096)]     # weights underflow to 0 / stay at 1: never NaN
 
@@ -59,14 +69,35 @@ def gen_kp(rng, H, W, s, p_nan):
     return (gen_coord(rng, W, s), gen_coord(rng, H, s))
 
 
+def punch_nan(rng, inst):
+    """Out-of-image animals also come with a missing node (NaN is neither inside nor outside)."""
+    vis = [k for k, p in enumerate(inst) if visible(p)]
+    if len(vis) >= 3 and rng.random() < 0.45:
+        k = rng.choice(vis)
+        inst[k] = rng.choice([(None, None), (inst[k][0], None), (None, inst[k][1])])
+    return inst
+
+
 def gen_animal(rng, H, W, s, n_nodes, p_nan):
     kind = rng.random()
     inst = [gen_kp(rng, H, W, s, p_nan) for _ in range(n_nodes)]
     lastx, lasty = s * (-(-W // s) - 1), s * (-(-H // s) - 1)
-    if kind < 0.10:                    # wholly outside the image
+    if kind < 0.05:                    # wholly outside the image, far away
         dx = rng.choice([-(W + 4), W + 4, 0])
         dy = rng.choice([-(H + 4), H + 4]) if dx == 0 else rng.choice([-(H + 4), 0, H + 4])
         inst = [(p[0] + dx, p[1] + dy) if visible(p) else p for p in inst]
+    elif kind < 0.11:                  # wholly outside, every node 9/16 .. 3 px beyond ONE border line (the
+        side = rng.randrange(4)        # Gaussian tails would reach into the image if the animal were kept)
+        def onode():
+            off = F(rng.randrange(9, 48), 16)
+            if side == 0:
+                return (-off, F(rng.randrange(0, 8 * H), 8))
+            if side == 1:
+                return (W - 1 + off, F(rng.randrange(0, 8 * H), 8))
+            if side == 2:
+                return (F(rng.randrange(0, 8 * W), 8), -off)
+            return (F(rng.randrange(0, 8 * W), 8), H - 1 + off)
+        return punch_nan(rng, [onode() if visible(p) else p for p in inst])
     elif kind < 0.22:                  # every node on the border lines / band outside the filter box
         def bnode():
             k = rng.randrange(4)
@@ -80,7 +111,15 @@ def gen_animal(rng, H, W, s, n_nodes, p_nan):
             return (gen_coord(rng, W, s),
                     F(rng.randrange(16 * lasty, 16 * (H - 1) + 1), 16) if rng.random() < 0.5 else F(lasty))
         inst = [bnode() if visible(p) else p for p in inst]
-    elif kind < 0.28:                  # every node in the one-pixel strip just beyond a border line:
+    elif kind < 0.28 and n_nodes >= 2:  # "crossing": every node outside, on opposite sides, so that the
+        horiz = rng.random() < 0.5      # segments between them cross the image (animal = its nodes: zero)
+        def cnode(k):
+            far = F(rng.randrange(8, 8 * 6), 8)
+            if horiz:
+                return ((-far if k % 2 == 0 else W - 1 + far), F(rng.randrange(0, 8 * H), 8))
+            return (F(rng.randrange(0, 8 * W), 8), (-far if k % 2 == 0 else H - 1 + far))
+        return punch_nan(rng, [cnode(k) if visible(p) else p for k, p in enumerate(inst)])
+    elif kind < 0.34:                  # every node in the one-pixel strip just beyond a border line:
         def snode():                   # x in (W-1, W) or (-1, 0), or y in (H-1, H) or (-1, 0)
             off = F(rng.randrange(1, 16), 16)
             k = rng.randrange(4)
@@ -145,7 +184,8 @@ def gen_dims(rng, s, thorough):
 
 
 def gen_case(rng, thorough):
-    kind = rng.choice(["gen", "gen", "gen", "gen", "pipe", "pipe", "multi", "pafs", "edgemaps", "dist", "edgepts"])
+    kind = rng.choice(["gen", "gen", "gen", "gen", "pipe", "pipe", "multi", "pafs", "edgemaps", "dist", "edgepts",
+                       "chk"])
     s = rng.choice([1, 1, 2, 2, 4, 8])
     H, W = gen_dims(rng, s, thorough)
     sigma = rng.choice(SIGMAS_EXTREME) if rng.random() < 0.08 else rng.choice(SIGMAS)
@@ -187,6 +227,18 @@ def gen_case(rng, thorough):
     if kind in ("pafs", "edgemaps", "dist"):
         while len(c["insts"]) < 1:
             c["insts"].append(gen_animal(rng, H, W, s, n_nodes, p_nan))
+    if kind == "chk":                                 # the domain of generate_pafs: half of the cases leave it
+        c["flat"] = False
+        k = rng.random()
+        if k < 0.30 and c["edges"]:                   # a node index out of range (IndexError iff an animal is kept)
+            e = rng.randrange(len(c["edges"]))
+            bad = n_nodes + rng.randrange(0, 3)
+            c["edges"] = list(c["edges"])
+            c["edges"][e] = (c["edges"][e][0], bad) if rng.random() < 0.5 else (bad, c["edges"][e][1])
+        elif k < 0.40:
+            c["no_sample"] = True                     # n_samples = 0: instances[0] raises IndexError
+        elif k < 0.50:
+            c["s"] = 0                                # torch.arange(step=0) raises RuntimeError
     if kind == "dist":                                # arbitrary (non-grid) query points
         h, w = rng.randint(1, 3), rng.randint(1, 4)
         c["pts"] = [[(F(rng.randrange(-32, 16 * W + 32), 16), F(rng.randrange(-32, 16 * H + 32), 16))
@@ -229,11 +281,14 @@ def term(c, fixed_len, fixed_box, fixed_box_pipe=None):
         fixed_box_pipe = fixed_box
     k = c["kind"]
     sg = core.cq(c["sigma"])
+    fb = core.cbool(fixed_box)
+    fl = core.cbool(fixed_len)
+    if k == "chk":
+        smp = core.clist([] if c.get("no_sample") else [c["insts"]], cinsts)
+        return (f"CGenChk {fl} {fb} {smp} {c['H']}%nat {c['W']}%nat {sg} {c['s']}%nat {cedges(c['edges'])}")
     xv, yv = core.clist(grid(c["W"], c["s"]), core.cq), core.clist(grid(c["H"], c["s"]), core.cq)
     srcs, dsts = edge_points(c["insts"], c["edges"])
     lk = lambda l: core.clist(l, ckp)
-    fb = core.cbool(fixed_box)
-    fl = core.cbool(fixed_len)
     if k == "dist":
         pts = core.clist(c["pts"], lambda r: core.clist(r, lambda p: f"({core.cq(p[0])}, {core.cq(p[1])})"))
         return f"CDist {fl} {pts} {lk(srcs[0])} {lk(dsts[0])}"
@@ -256,6 +311,30 @@ def term(c, fixed_len, fixed_box, fixed_box_pipe=None):
         ex_t = core.clist(exs, lambda e: f"({e[0]}%nat, {e[1]}%nat, {core.clist(e[2], cinsts)})")
         return f"CPipe {fl} {core.cbool(fixed_box_pipe)} {core.cbool(c['flat'])} {ex_t} {sg} {c['s']}%nat {cedges(c['edges'])}"
     raise ValueError(k)
+
+
+def sel_term(c):
+    """The Coq selectors of F1 / F23 on the animals and edges of a case."""
+    return f"CSel {c['H']}%nat {c['W']}%nat {c['s']}%nat {cinsts(c['insts'])} {cedges(c['edges'])}"
+
+
+def in_range(c):
+    return all(0 <= a < c["n_nodes"] and 0 <= b < c["n_nodes"] for a, b in c["edges"])
+
+
+def py_selectors(c):
+    """The Python selectors used by the oracle, in the shape of EdgeMaps.run (CSel ...)."""
+    H, W, s = c["H"], c["W"], c["s"]
+    out = []
+    for inst in c["insts"]:
+        box = classify(inst, H, W) == "inside" and not strictly_in_code_box(inst, H, W, s)
+        f1 = []
+        for a, b in c["edges"]:
+            src, dst = inst[a], inst[b]
+            f1.append(bool(visible(src) and visible(dst) and
+                           0 < (dst[0] - src[0]) ** 2 + (dst[1] - src[1]) ** 2 < 1))
+        out.append([box, f1])
+    return out
 
 
 # ---------------------------------------------------------------- implementation
@@ -286,6 +365,15 @@ def run_impl(c, mods):
     torch, em = mods
     k = c["kind"]
     sg = float(c["sigma"])
+    dt, edt = c.get("dtype", "float32"), c.get("edge_dtype", "float32")
+    if k == "chk":                                    # None = the code raises (kind of error as documented)
+        smp = t_insts([c["insts"]], c["n_nodes"], torch, dt)
+        if c.get("no_sample"):
+            smp = smp[:0]
+        try:
+            return em.generate_pafs(smp, (c["H"], c["W"]), sg, c["s"], t_edges(c["edges"], torch, edt), False)
+        except (IndexError, RuntimeError):
+            return None
     xv = torch.tensor([float(v) for v in grid(c["W"], c["s"])], dtype=torch.float32)
     yv = torch.tensor([float(v) for v in grid(c["H"], c["s"])], dtype=torch.float32)
     srcs, dsts = edge_points(c["insts"], c["edges"])
@@ -386,6 +474,12 @@ def compare(c, model, out):
                 cmp_nested(model[1], out[1].tolist(), leaf_kp, 2))
     if k == "gen":
         return cmp_nested(model, out.tolist(), leaf_sum, 3 if c["flat"] else 4)
+    if k == "chk":
+        if model is None or out is None:
+            return None if (model is None and out is None) else (
+                f"domain: model {'raises' if model is None else 'has an output'}, "
+                f"implementation {'raises' if out is None else 'has an output'}")
+        return cmp_nested(model, out.tolist(), leaf_sum, 4)
     if k == "pipe":
         outs = [o.unsqueeze(0).tolist() if c["flat"] else o.tolist() for o in out]
         return cmp_nested(model, outs, leaf_sum, 5)
@@ -686,6 +780,11 @@ def oracle(c, out, mods):
     if c["kind"] == "dist":
         return oracle_dist(c, out, mods)
     dts = (c.get("dtype", "float32"), c.get("edge_dtype", "float32"))
+    if c["kind"] == "chk":                # outside the domain (the code raises) the property says nothing
+        if out is None or c["s"] < 1 or c.get("no_sample") or not in_range(c):
+            return []
+        return oracle_field(mods, out, c["insts"], c["n_nodes"], c["H"], c["W"], c["s"], c["sigma"],
+                            c["edges"], False, False, dts)
     if c["kind"] == "gen":
         return oracle_field(mods, out, c["insts"], c["n_nodes"], c["H"], c["W"], c["s"], c["sigma"],
                             c["edges"], c["flat"], False, dts)
@@ -711,6 +810,8 @@ def case_json(c):
     j["insts"] = [[jp(p) for p in inst] for inst in c["insts"]]
     if c.get("extra_sample"):
         j["extra_sample"] = True
+    if c.get("no_sample"):
+        j["no_sample"] = True
     for k in ("dtype", "edge_dtype"):
         if k in c:
             j[k] = c[k]
@@ -733,6 +834,8 @@ def case_from_json(j):
     c["edges"] = [tuple(e) for e in j["edges"]]
     c["insts"] = [[up(p) for p in inst] for inst in j["insts"]]
     c["extra_sample"] = bool(j.get("extra_sample"))
+    if j.get("no_sample"):
+        c["no_sample"] = True
     for k in ("dtype", "edge_dtype"):
         if k in j:
             c[k] = j[k]
@@ -776,6 +879,68 @@ def detect_fixed_box_pipe(mods):
     return bool((out != 0).any())
 
 
+def load_historic(mods):
+    """The pre-repair edge_maps.py (pinned tree before fixes 5bfaeb9 / f00ee7f), rebuilt from the CURRENT
+    file of the checked repo by reverse-applying the two repair diffs; (module, None) or (None, reason)."""
+    torch, _ = mods
+    d = core.scratch_dir("sv_c05hist_")
+    try:
+        dst = d / "sleap_nn" / "data"
+        dst.mkdir(parents=True)
+        shutil.copy(core.REPO / "sleap_nn" / "data" / "edge_maps.py", dst / "edge_maps.py")
+        for diff in HIST_DIFFS:
+            r = subprocess.run(["patch", "-R", "-p1", "-s", "-f", "--no-backup-if-mismatch", "-d", str(d), "-i", str(diff)],
+                               stdout=subprocess.PIPE, stderr=subprocess.STDOUT, text=True, timeout=60)
+            if r.returncode != 0:
+                return None, f"{diff.name} does not reverse-apply to the current edge_maps.py: {r.stdout[-200:]}"
+        spec = importlib.util.spec_from_file_location("sv_c05_historic_edge_maps", dst / "edge_maps.py")
+        mod = importlib.util.module_from_spec(spec)
+        spec.loader.exec_module(mod)
+    except Exception as e:                            # a mutated tree may not even import
+        return None, f"{type(e).__name__}: {e}"
+    finally:
+        shutil.rmtree(d, ignore_errors=True)
+    hm = (torch, mod)
+    flags = (detect_fixed_len(hm), detect_fixed_box(hm), detect_fixed_box_pipe(hm))
+    if any(flags):
+        return None, f"the reverse-patched source does not show the historic behaviour on the witnesses: {flags}"
+    return mod, None
+
+
+HIST_KINDS = ("gen", "pipe", "multi", "pafs", "edgemaps", "dist")
+
+
+def historic_tie(run, mods, hist, cases, model_hist, sel_of):
+    """fixed_len = fixed_box = false: the model against the pre-repair source; on the two witnesses the
+    oracle must fail on that source exactly under the finding's selector, and the Coq selector is true."""
+    hm = (mods[0], hist)
+    bad = []
+    for c, m in zip(cases, model_hist):
+        try:
+            out = run_impl(c, hm)
+        except Exception as e:
+            bad.append(f"historic source raised {type(e).__name__}: {e}; case {json.dumps(case_json(c))[:300]}")
+            continue
+        diff = compare(c, m, out)
+        if diff:
+            bad.append(f"{diff}; case {json.dumps(case_json(c))[:500]}")
+    for wit, sel in ((WITNESS_F1, SEL_F1), (WITNESS_BOX, SEL_BOX)):
+        c = case_from_json(json.load(open(wit))["case"])
+        fails = oracle(c, run_impl(c, hm), hm)
+        if not fails or any(s != sel for _, s in fails):
+            bad.append(f"witness {wit.name} on the historic source: oracle failures {fails}, expected selector {sel}")
+        cs = sel_of(c)
+        hit = any(b for b, _ in cs) if sel == SEL_BOX else any(any(f) for _, f in cs)
+        if not hit:
+            bad.append(f"witness {wit.name}: the Coq selector of {sel} is false on it ({cs})")
+    run.obligation("correspondence (historic variants): EdgeMaps.run with fixed_len = fixed_box = false == "
+                   "edge_maps.py with proposed_fixes/C05_F1.diff, C05_F23.diff reverse-applied, on the corpus "
+                   "witnesses and a sample of cases; the witnesses fail the oracle there exactly under the "
+                   "Coq selectors", not bad, f"{len(bad)} disagreements on {len(cases)} cases")
+    for b in bad[:5]:
+        run.proof_broken.append("C05 historic variants: " + b)
+
+
 # ---------------------------------------------------------------- the check
 def check(run: core.Run) -> int:
     run.build_and_prove(PROP_FILES)
@@ -788,19 +953,50 @@ def check(run: core.Run) -> int:
     run.notes.append(f"variants detected on the implementation by running the corpus witnesses: "
                      f"fixed_len={fixed_len} (F1), fixed_box={fixed_box} (F23, generate_pafs), "
                      f"fixed_box_pipe={fixed_box_pipe} (F23, PartAffinityFieldsGenerator)")
+    hist, why_not = load_historic(mods)
+    if hist is None:
+        run.notes.append(f"historic variants (fixed_len = fixed_box = false) not tied in this run: {why_not}")
     cases = []
     for f in sorted((core.CORPUS / "C05").glob("*.json")):
         cases.append(case_from_json(json.load(open(f))["case"]))
+    n_corpus = len(cases)
     while len(cases) < n:
         cases.append(gen_case(run.rng, thorough))
-    model = core.coq_eval_sharded(PREAMBLE, [term(c, fixed_len, fixed_box, fixed_box_pipe) for c in cases], "run", RENDER,
-                                  shard=12, jobs=14)
+    terms = [term(c, fixed_len, fixed_box, fixed_box_pipe) for c in cases]
+    # the Coq selectors on the witnesses and a sample of cases; the historic variants on the same sample
+    n_extra = 400 if thorough else 80
+    sel_cases = [c for c in cases if c["s"] >= 1 and in_range(c) and c["insts"]]
+    sel_cases = sel_cases[:n_corpus + n_extra]
+    hist_cases = [c for c in cases if c["kind"] in HIST_KINDS][:n_corpus + n_extra] if hist is not None else []
+    terms += [sel_term(c) for c in sel_cases] + [term(c, False, False, False) for c in hist_cases]
+    model_all = core.coq_eval_sharded(PREAMBLE, terms, "run", RENDER, shard=12, jobs=14)
+    model = model_all[:len(cases)]
+    model_sel = model_all[len(cases):len(cases) + len(sel_cases)]
+    model_hist = model_all[len(cases) + len(sel_cases):]
+    sel_bad = [(case_json(c), m, py_selectors(c)) for c, m in zip(sel_cases, model_sel) if m != py_selectors(c)]
+    run.obligation("selectors: selector_F1 / selector_strict_box evaluated in Coq (EdgeMaps.run (CSel ...)) == the "
+                   "Python selectors of the oracle, on the corpus witnesses and a sample of cases",
+                   not sel_bad, f"{len(sel_bad)} disagreements on {len(sel_cases)} cases")
+    for cj, m, py in sel_bad[:3]:
+        run.proof_broken.append(f"C05 selectors: Coq {m} vs Python {py}; case {json.dumps(cj)[:500]}")
+    if hist is not None:
+        sel_by_id = {id(c): m for c, m in zip(sel_cases, model_sel)}
+        historic_tie(run, mods, hist, hist_cases, model_hist, lambda c: sel_by_id.get(id(c)) or
+                     core.coq_eval_sharded(PREAMBLE, [sel_term(c)], "run", RENDER)[0])
     disagree, dist, n_oracle = 0, {}, 0
     for c, m in zip(cases, model):
         for key in (c["kind"], f"stride{c['s']}", f"animals{len(c['insts'])}", f"edges{len(c['edges'])}"):
             dist[key] = dist.get(key, 0) + 1
         nvis = sum(visible(inst[a]) and visible(inst[b]) and inst[a] != inst[b]
-                   for inst in c["insts"] for a, b in c["edges"])
+                   for inst in c["insts"] for a, b in c["edges"]) if in_range(c) else 0
+        if c["kind"] == "chk":
+            dist["chk_raises" if m is None else "chk_in_domain"] = dist.get("chk_raises" if m is None else "chk_in_domain", 0) + 1
+        if any(classify(inst, c["H"], c["W"]) == "outside" and sum(visible(p) for p in inst) >= 2 and
+               (min(p[0] for p in inst if visible(p)) < 0 and max(p[0] for p in inst if visible(p)) > c["W"] - 1 and
+                all(0 <= p[1] <= c["H"] - 1 for p in inst if visible(p)) or
+                min(p[1] for p in inst if visible(p)) < 0 and max(p[1] for p in inst if visible(p)) > c["H"] - 1 and
+                all(0 <= p[0] <= c["W"] - 1 for p in inst if visible(p))) for inst in c["insts"]):
+            dist["crossing_animal"] = dist.get("crossing_animal", 0) + 1
         run.case(case_json(c), nontrivial=(nvis >= 1 and c["H"] * c["W"] >= 4))
         try:
             out = run_impl(c, mods)
@@ -811,7 +1007,7 @@ def check(run: core.Run) -> int:
         if diff:
             disagree += 1
         fails = oracle(c, out, mods)
-        n_oracle += c["kind"] != "edgepts"
+        n_oracle += c["kind"] != "edgepts" and not (c["kind"] == "chk" and out is None)
         for key in ("dtype", "edge_dtype"):
             if key in c:
                 dist[f"{key}_{c[key]}"] = dist.get(f"{key}_{c[key]}", 0) + 1
@@ -845,8 +1041,9 @@ def check(run: core.Run) -> int:
                     "float32 tolerance",
                     "NaN coordinate = missing keypoint (None); float underflow/overflow is not modelled "
                     "(an edge shorter than ~1e-23 px makes torch.norm underflow to 0 and the field inf)"]
-    run.assumptions += ["coordinates are finite or NaN, |coordinates| << 1e9, sigma > 0, H, W, stride >= 1, "
-                        "edge node indices in range"]
+    run.assumptions += ["coordinates are finite or NaN, |coordinates| << 1e9, sigma > 0, H, W >= 1; stride >= 1, "
+                        "n_samples >= 1 and edge node indices in range for every kept animal = in_domain "
+                        "(outside it the code raises: kind chk); negative node indices (torch wraps them) outside"]
     return run.finish()
 
 
